@@ -22,6 +22,15 @@
 (***************************************************************************)
 EXTENDS Integers, Sequences, FiniteSets, TLC
 
+\* Rule groups that are switched off (normally {}).  When a trace is rejected the
+\* orchestrator re-validates it with one group off at a time to learn which
+\* family of rules - hence which property - the implementation broke.
+\*   md status pay ids wire ctx fault serve pend reg robust
+CONSTANT Off
+\* IF (not a disjunction) and "= TRUE" make TLC evaluate the guard as a plain predicate:
+\* a disjunction in an action is split into one successor per true disjunct.
+G(g, cond) == IF g \in Off THEN TRUE ELSE cond = TRUE
+
 VARIABLES
   cfg,      \* [srv: server name, rawcli, rawsrv: BOOLEAN, ncli]
   phase,    \* "run" | "unwind" | "end"
@@ -148,7 +157,7 @@ Cancel(c) ==
 (* wire protocol).  env is the envelope record of the trace.                *)
 
 FreshId(n) == n >= 0 /\ (n > hi \/ n \in gaps)
-UseId(n) == IF n > hi THEN /\ hi' = n
+UseId(n) == IF n > hi \/ n < 0 THEN /\ hi' = n
                            /\ gaps' = gaps \cup ((hi + 1)..(n - 1))
                       ELSE /\ hi' = hi
                            /\ gaps' = gaps \ {n}
@@ -164,15 +173,15 @@ ClientWrite(env) ==
         /\ env.c \in DOMAIN calls
         /\ calls[env.c].id = ""
         /\ LET c == env.c IN
-           /\ FreshId(env.idn) /\ UseId(env.idn)
+           /\ G("ids", FreshId(env.idn)) /\ UseId(env.idn)
            /\ env.id \notin DOMAIN byId
-           /\ HdrConst(env, c)
-           /\ MdF(env.md) = calls[c].md
-           /\ env.s = 0 /\ env.t = 0 /\ env.r = 0
+           /\ G("wire", HdrConst(env, c))
+           /\ G("md", MdF(env.md) = calls[c].md)
+           /\ G("wire", env.s = 0 /\ env.t = 0 /\ env.r = 0)
            /\ IF calls[c].kind = "unary"
-                THEN env.b = 1 /\ env.pay = calls[c].pay
-                ELSE env.b = 0
-           /\ (calls[c].dl >= 0) <=> (env.to # "")
+                THEN G("wire", env.b = 1) /\ G("pay", env.pay = calls[c].pay)
+                ELSE G("wire", env.b = 0)
+           /\ G("wire", (calls[c].dl >= 0) <=> (env.to # ""))
            /\ calls' = [calls EXCEPT ![c].id = env.id]
            /\ byId' = Put(byId, env.id, c)
      \/ \* later envelope of a stream
@@ -180,23 +189,23 @@ ClientWrite(env) ==
         /\ LET c == byId[env.id] IN
            /\ calls[c].id = env.id /\ env.c \in {0, c}
            /\ calls[c].kind # "unary"
-           /\ HdrConst(env, c)
-           /\ ~calls[c].rstW                    \* the reset is final
-           /\ env.md = <<>>
+           /\ G("wire", HdrConst(env, c))
+           /\ G("wire", ~calls[c].rstW)         \* the reset is final
+           /\ G("md", env.md = <<>>)
            /\ \/ \* body
                  /\ env.b = 1 /\ env.t = 0 /\ env.s = 0 /\ env.r = 0
-                 /\ ~calls[c].closeW
+                 /\ G("wire", ~calls[c].closeW)
                  /\ calls[c].nW < Len(calls[c].sent)
-                 /\ env.pay = calls[c].sent[calls[c].nW + 1]
+                 /\ G("pay", env.pay = calls[c].sent[calls[c].nW + 1])
                  /\ calls' = [calls EXCEPT ![c].nW = @ + 1]
               \/ \* half-close
                  /\ env.t = 1 /\ env.b = 0 /\ env.r = 0
-                 /\ env.s = 0 \/ env.code = OK
-                 /\ calls[c].closeCalled /\ ~calls[c].closeW
+                 /\ G("wire", env.s = 0 \/ env.code = OK)
+                 /\ G("wire", calls[c].closeCalled /\ ~calls[c].closeW)
                  /\ calls' = [calls EXCEPT ![c].closeW = TRUE]
               \/ \* reset: only for a call whose context is done
                  /\ env.r = 1 /\ env.b = 0 /\ env.rtype = "RST_STREAM"
-                 /\ CtxDone(c) \/ "cwrite" \in flt \/ calls[c].sendFailed
+                 /\ G("ctx", CtxDone(c) \/ "cwrite" \in flt \/ calls[c].sendFailed)
                  /\ calls' = [calls EXCEPT ![c].rstW = TRUE]
            /\ UNCHANGED <<byId, hi, gaps>>
   /\ cw' = Append(cw, env)
@@ -279,8 +288,8 @@ HStart(h, c, kind, pay, md, dlus) ==
   /\ \E i \in DOMAIN preq : preq[i].c = c /\ preq[i].kind = kind
   /\ LET i == FirstReq(c, kind)
          r == preq[i] IN
-     /\ kind = "unary" => pay = r.pay
-     /\ md = r.md
+     /\ G("pay", kind = "unary" => pay = r.pay)
+     /\ G("md", md = r.md)
      /\ preq' = RemoveAt(preq, i)
      /\ hnds' = Put(hnds, h, [c |-> c, id |-> r.id, kind |-> kind, nrecv |-> 0,
                               sent |-> <<>>, sres |-> <<>>, lastW |-> 0,
@@ -304,16 +313,16 @@ HRecvRet(h, res, pay) ==
          nxt == x.nrecv + 1 IN
      \/ /\ res = "msg"
         /\ nxt <= Len(items)
-        /\ items[nxt].k \in {"body", "hdr"} /\ items[nxt].pay = pay
+        /\ items[nxt].k \in {"body", "hdr"} /\ G("pay", items[nxt].pay = pay)
         /\ HUpd(h, [x EXCEPT !.nrecv = nxt])
      \/ /\ res = "eof"
         /\ nxt <= Len(items)
         /\ items[nxt].k = "close" /\ items[nxt].code = OK
         /\ HUpd(h, [x EXCEPT !.nrecv = nxt])
      \/ /\ res = "err"
-        /\ \/ HCause(h)
-           \/ nxt <= Len(items) /\ items[nxt].k = "close" /\ items[nxt].code # OK
-           \/ nxt <= Len(items) /\ items[nxt].k = "body" /\ items[nxt].pay = "raw!"   \* undecodable body
+        /\ ( \/ G("ctx", HCause(h))
+             \/ nxt <= Len(items) /\ items[nxt].k = "close" /\ items[nxt].code # OK
+             \/ nxt <= Len(items) /\ items[nxt].k = "body" /\ items[nxt].pay = "raw!" ) = TRUE  \* undecodable body
         /\ HUpd(h, x)
 
 HSend(h, pay) ==
@@ -322,12 +331,12 @@ HSend(h, pay) ==
 
 HSendRet(h, res) ==
   /\ h \in DOMAIN hnds /\ Len(hnds[h].sres) > 0 /\ hnds[h].sres[Len(hnds[h].sres)] = "?"
-  /\ res = "err" => HCause(h)          \* a send on a healthy stream does not fail
+  /\ G("ctx", res = "err" => HCause(h))  \* a send on a healthy stream does not fail
   /\ HUpd(h, [hnds[h] EXCEPT !.sres[Len(hnds[h].sres)] = res])
 
 HSetHdr(h, md, res) ==
   /\ h \in DOMAIN hnds /\ ~hnds[h].ret
-  /\ res = "err" => hnds[h].hdrW \/ hnds[h].hdrPending \/ HCause(h)
+  /\ G("md", res = "err" => hnds[h].hdrW \/ hnds[h].hdrPending \/ HCause(h))
   /\ HUpd(h, IF res = "ok" THEN [hnds[h] EXCEPT !.hdr = Cat2(@, md)] ELSE hnds[h])
 
 \* stream SendHeader: call and return are separate events (the envelope is emitted in between)
@@ -336,7 +345,7 @@ HSendHdr(h, md) ==
   /\ HUpd(h, [hnds[h] EXCEPT !.pendHdr = md, !.hdrPending = TRUE])
 HSendHdrRet(h, res) ==
   /\ h \in DOMAIN hnds /\ hnds[h].hdrPending
-  /\ res = "err" => hnds[h].hdrW \/ HCause(h)
+  /\ G("md", res = "err" => hnds[h].hdrW \/ HCause(h))
   /\ HUpd(h, [hnds[h] EXCEPT !.hdrPending = FALSE, !.pendHdr = EmptyF,
                              !.hdr = IF res = "ok" THEN Cat2(@, hnds[h].pendHdr) ELSE @])
 \* unary grpc.SendHeader only collects
@@ -357,7 +366,7 @@ HRet(h, code, msg, ndet, pay) ==
 
 HCtxDone(h) ==
   /\ h \in DOMAIN hnds
-  /\ HCause(h)                       \* a handler context is done only for a reason
+  /\ G("ctx", HCause(h))             \* a handler context is done only for a reason
   /\ UNCHANGED varsNoNow
 
 -----------------------------------------------------------------------------
@@ -365,10 +374,11 @@ HCtxDone(h) ==
 
 StatusMatches(env, h) ==
   LET x == hnds[h] IN
-  IF x.rc = OK THEN env.s = 0 \/ env.code = OK
-  ELSE /\ env.s = 1
-       /\ IF x.rc = -2 THEN env.code # OK ELSE env.code = x.rc
-       /\ env.msg = x.rmsg /\ env.ndet = x.rndet
+  G("status",
+    IF x.rc = OK THEN env.s = 0 \/ env.code = OK
+    ELSE /\ env.s = 1
+         /\ IF x.rc = -2 THEN env.code # OK ELSE env.code = x.rc
+         /\ env.msg = x.rmsg /\ env.ndet = x.rndet)
 
 RespHdrConst(env, x) == /\ env.h = 1 /\ env.meth = x.meth /\ env.src = x.dst /\ env.dst = x.src
 
@@ -380,17 +390,18 @@ HasNextSend(x) == \E j \in (x.lastW + 1)..Len(x.sent) : x.sres[j] # "err"
 
 ServerWrite(env) ==
   /\ ~cfg.rawsrv
-  /\ Sin(env.id).n > 0                     \* only for ids it has received
+  /\ G("wire", Sin(env.id).n > 0)         \* only for ids it has received
   /\ \/ \* reset answering a body (or an undecodable open) for a stream it does not know
         /\ env.r = 1 /\ env.t = 1 /\ env.b = 0 /\ env.rtype = "RST_STREAM"
         /\ LET s == Sin(env.id) IN
-           /\ s.must + s.may > 0
-           /\ env.h = 1 /\ env.meth = s.meth /\ env.src = s.dst /\ env.dst = s.src
+           /\ G("wire", s.must + s.may > 0)
+           /\ G("wire", env.h = 1 /\ env.meth = s.meth /\ env.src = s.dst /\ env.dst = s.src)
            \* it never overtakes the trailer of a stream that ended normally
-           /\ env.id \in DOMAIN hOf =>
+           /\ G("wire", env.id \in DOMAIN hOf =>
                 LET x == hnds[hOf[env.id]] IN
-                   x.kind # "unary" /\ x.ret /\ ~x.trW => HCause(hOf[env.id])
-           /\ sin' = Put(sin, env.id, IF s.must > 0 THEN [s EXCEPT !.must = @ - 1] ELSE [s EXCEPT !.may = @ - 1])
+                   x.kind # "unary" /\ x.ret /\ ~x.trW => HCause(hOf[env.id]))
+           /\ sin' = Put(sin, env.id, IF s.must > 0 THEN [s EXCEPT !.must = @ - 1]
+                                      ELSE IF s.may > 0 THEN [s EXCEPT !.may = @ - 1] ELSE s)
         /\ UNCHANGED hnds
      \/ \* an envelope of a handler
         /\ env.r = 0
@@ -398,32 +409,32 @@ ServerWrite(env) ==
         /\ LET h == hOf[env.id]
                x == hnds[h]
                md == MdF(env.md) IN
-           /\ ~x.trW                            \* nothing after the close / the response
-           /\ RespHdrConst(env, x)
+           /\ G("wire", ~x.trW)                 \* nothing after the close / the response
+           /\ G("wire", RespHdrConst(env, x))
            /\ IF x.kind = "unary"
                 THEN \* exactly one response: header, trailer and a body or a non-OK status
-                     /\ x.ret /\ env.t = 1
+                     /\ x.ret /\ G("wire", env.t = 1)
                      /\ StatusMatches(env, h)
-                     /\ x.rc = OK => env.b = 1 /\ env.pay = x.rpay
-                     /\ md = x.hdr /\ MdF(env.tmd) = x.trl
+                     /\ x.rc = OK => G("wire", env.b = 1) /\ G("pay", env.pay = x.rpay)
+                     /\ G("md", md = x.hdr /\ MdF(env.tmd) = x.trl)
                      /\ hnds' = [hnds EXCEPT ![h].trW = TRUE]
                 ELSE \/ \* explicit header
                         /\ env.b = 0 /\ env.t = 0 /\ env.s = 0
-                        /\ x.hdrPending /\ ~x.hdrW
-                        /\ md = Cat2(x.hdr, x.pendHdr)
+                        /\ G("wire", x.hdrPending /\ ~x.hdrW)
+                        /\ G("md", md = Cat2(x.hdr, x.pendHdr))
                         /\ hnds' = [hnds EXCEPT ![h].hdrW = TRUE]
                      \/ \* message
                         /\ env.b = 1 /\ env.t = 0 /\ env.s = 0
                         /\ HasNextSend(x)
-                        /\ env.pay = x.sent[NextSend(x)]
-                        /\ md = IF x.hdrW THEN EmptyF ELSE x.hdr
+                        /\ G("pay", env.pay = x.sent[NextSend(x)])
+                        /\ G("md", md = IF x.hdrW THEN EmptyF ELSE x.hdr)
                         /\ hnds' = [hnds EXCEPT ![h].lastW = NextSend(x), ![h].hdrW = TRUE]
                      \/ \* close
                         /\ env.t = 1 /\ env.b = 0
-                        /\ x.ret /\ ~HasNextSend(x)
+                        /\ x.ret /\ G("wire", ~HasNextSend(x))
                         /\ StatusMatches(env, h)
-                        /\ md = IF x.hdrW THEN EmptyF ELSE x.hdr
-                        /\ MdF(env.tmd) = x.trl
+                        /\ G("md", md = IF x.hdrW THEN EmptyF ELSE x.hdr)
+                        /\ G("md", MdF(env.tmd) = x.trl)
                         /\ hnds' = [hnds EXCEPT ![h].trW = TRUE, ![h].hdrW = TRUE]
         /\ UNCHANGED sin
      \/ \* reply to a unary request with undecodable metadata: an error status, no handler
@@ -481,21 +492,21 @@ URet(c, res, code, msg, ndet, pay) ==
   /\ LET x == Cin(calls[c].id) IN
      \/ /\ res = "ok"
         /\ calls[c].id # "" /\ x.n > 0
-        /\ x.fb = 1 /\ (x.fs = 0 \/ x.fcode = OK)
-        /\ pay = x.fpay
+        /\ G("status", x.fb = 1 /\ (x.fs = 0 \/ x.fcode = OK))
+        /\ G("pay", pay = x.fpay)
      \/ /\ res = "err"
-        /\ \/ CtxDone(c)
-           \/ CliDown
-           \/ /\ calls[c].id # "" /\ x.n > 0
-              /\ \/ x.fs = 1 /\ x.fcode # OK /\ code = x.fcode /\ msg = x.fmsg /\ ndet = x.fndet
-                 \/ x.fb = 0 /\ (x.fs = 0 \/ x.fcode = OK)      \* malformed: neither body nor error
-                 \/ x.fpay = "raw!"                             \* undecodable body
+        /\ ( \/ CtxDone(c)
+             \/ CliDown
+             \/ /\ calls[c].id # "" /\ x.n > 0
+                /\ \/ x.fs = 1 /\ x.fcode # OK /\ G("status", code = x.fcode /\ msg = x.fmsg /\ ndet = x.fndet)
+                   \/ x.fb = 0 /\ (x.fs = 0 \/ x.fcode = OK)      \* malformed: neither body nor error
+                   \/ x.fpay = "raw!" ) = TRUE                     \* undecodable body
   /\ CUpd(c, [calls[c] EXCEPT !.uret = TRUE])
 
 SOpenRet(c, res) ==
   /\ c \in DOMAIN calls /\ calls[c].kind # "unary" /\ calls[c].opened = ""
   /\ res = "ok" => calls[c].id # ""                 \* the open envelope was written
-  /\ res = "err" => CtxDone(c) \/ CliDown
+  /\ G("fault", res = "err" => CtxDone(c) \/ CliDown)
   /\ CUpd(c, [calls[c] EXCEPT !.opened = res])
 
 SSend(c, pay) ==
@@ -510,9 +521,9 @@ SSendRet(c, res) ==
   /\ calls[c].nOk < Len(calls[c].sent)
   /\ IF res = "ok"
        THEN /\ calls[c].nW > calls[c].nOk           \* it is on the wire
-            /\ ~calls[c].late[calls[c].nOk + 1]     \* C07: a send begun after cancel fails
+            /\ G("ctx", ~calls[c].late[calls[c].nOk + 1])  \* C07: a send begun after cancel fails
             /\ CUpd(c, [calls[c] EXCEPT !.nOk = @ + 1])
-       ELSE /\ StreamMayBeOver(c)
+       ELSE /\ G("fault", StreamMayBeOver(c))
             \* the message did not go out: drop it from the expected wire sequence
             /\ CUpd(c, [calls[c] EXCEPT !.sendFailed = TRUE,
                                         !.sent = IF calls[c].nW > calls[c].nOk THEN @ ELSE SubSeq(@, 1, calls[c].nOk) \o SubSeq(@, calls[c].nOk + 2, Len(@)),
@@ -526,7 +537,7 @@ SClose(c) ==
 SCloseRet(c, res) ==
   /\ c \in DOMAIN calls /\ calls[c].closeCalled
   /\ res = "ok" => calls[c].closeW
-  /\ res = "err" => StreamMayBeOver(c)
+  /\ G("fault", res = "err" => StreamMayBeOver(c))
   /\ CUpd(c, calls[c])
 
 SRecvRet(c, res, code, msg, ndet, pay, plain) ==
@@ -535,29 +546,31 @@ SRecvRet(c, res, code, msg, ndet, pay, plain) ==
          x == Cin(k.id) IN
      \/ /\ res = "msg"
         /\ k.term = ""
-        /\ k.recvd < Len(x.bodies) /\ pay = x.bodies[k.recvd + 1]
+        /\ k.recvd < Len(x.bodies) /\ G("pay", pay = x.bodies[k.recvd + 1])
         /\ CUpd(c, [k EXCEPT !.recvd = @ + 1])
      \/ /\ res = "eof"
-        /\ x.close = "ok" /\ k.recvd = Len(x.bodies)      \* C02: EOF exactly on success, after everything
+        /\ G("status", x.close = "ok") /\ G("pay", k.recvd = Len(x.bodies))  \* C02: EOF exactly on success, after everything
         /\ CUpd(c, [k EXCEPT !.term = "eof"])
      \/ /\ res = "err"
-        /\ code # OK \/ plain
-        /\ \/ x.close = "err" /\ code = x.code /\ msg = x.msg /\ ndet = x.ndet   \* C03
-           \/ x.close = "rst" \/ x.mayRst
-           \/ code \in CtxCodes(c)                                               \* C07
-           \/ "cread" \in flt
-           \/ x.fbad
-           \/ plain /\ k.recvd < Len(x.bodies) /\ x.bodies[k.recvd + 1] = "raw!"
-           \/ k.term = "err" /\ code = k.tcode
+        /\ (code # OK \/ plain) = TRUE
+        /\ ( \/ "status" \in Off
+             \/ x.close = "err" /\ code = x.code /\ msg = x.msg /\ ndet = x.ndet   \* C03
+             \/ x.close = "rst" \/ x.mayRst
+             \/ code \in CtxCodes(c)                                               \* C07
+             \/ "ctx" \in Off /\ CtxCodes(c) # {}
+             \/ "cread" \in flt
+             \/ x.fbad
+             \/ plain /\ k.recvd < Len(x.bodies) /\ x.bodies[k.recvd + 1] = "raw!"
+             \/ k.term = "err" /\ code = k.tcode ) = TRUE
         /\ CUpd(c, [k EXCEPT !.term = IF @ = "" THEN "err" ELSE @, !.tcode = IF k.term = "" THEN code ELSE @,
                              !.recvd = IF plain /\ k.recvd < Len(x.bodies) /\ x.bodies[k.recvd + 1] = "raw!" THEN @ + 1 ELSE @])
 
 SHdrRet(c, res, md, isnil) ==
   /\ c \in DOMAIN calls /\ calls[c].opened = "ok"
   /\ LET x == Cin(calls[c].id) IN
-     \/ res = "ok" /\ x.n > 0 /\ ~x.fbad /\ ~isnil /\ md = x.fmd                 \* C04
-     \/ res = "ok" /\ isnil /\ StreamMayBeOver(c)  \* (nil, nil): stream ended without headers
-     \/ res = "err" /\ StreamMayBeOver(c)
+     ( \/ res = "ok" /\ x.n > 0 /\ ~x.fbad /\ ~isnil /\ G("md", md = x.fmd)        \* C04
+       \/ res = "ok" /\ isnil /\ StreamMayBeOver(c)  \* (nil, nil): stream ended without headers
+       \/ res = "err" /\ StreamMayBeOver(c) ) = TRUE
   /\ CUpd(c, calls[c])
 
 STrl(c, md, isnil) ==
@@ -565,7 +578,7 @@ STrl(c, md, isnil) ==
   /\ LET x == Cin(calls[c].id) IN
      \* after a terminal result that came from the close envelope, the trailer is that envelope's
      (calls[c].term = "eof" \/ (calls[c].term = "err" /\ x.close = "err" /\ ~CtxDone(c) /\ ~CliDown))
-        => IF isnil THEN x.tmd = EmptyF ELSE md = x.tmd
+        => G("md", IF isnil THEN x.tmd = EmptyF ELSE md = x.tmd)
   /\ UNCHANGED varsNoNow
 
 -----------------------------------------------------------------------------
@@ -577,8 +590,8 @@ Fault(what) ==
                  creg, sreg, base, pend, live, cregN, parked>>
 
 ServeRet ==
-  /\ flt \cap {"sread", "swfail", "stop"} # {} \/ phase # "run"     \* Serve returns only for a reason
-  /\ \A h \in DOMAIN hnds : hnds[h].kind # "unary" => hnds[h].ret   \* C10: stream handlers finished
+  /\ G("serve", flt \cap {"sread", "swfail", "stop"} # {} \/ phase # "run")     \* Serve returns only for a reason
+  /\ G("serve", \A h \in DOMAIN hnds : hnds[h].kind # "unary" => hnds[h].ret)   \* C10: stream handlers finished
   /\ flt' = flt \cup {"serveret"}
   /\ UNCHANGED <<cfg, phase, calls, byId, hi, gaps, cw, nSR, sw, nCR, cin, sin, preq, hnds, hOf,
                  creg, sreg, base, pend, live, cregN, parked>>
@@ -586,21 +599,21 @@ ServeRet ==
 -----------------------------------------------------------------------------
 (* Registry events (C14) - emitted under the registry locks                 *)
 
-MuxReg(id, n) == /\ creg' = creg \cup {id} /\ n = Cardinality(creg \cup {id})
+MuxReg(id, n) == /\ creg' = creg \cup {id} /\ G("reg", n = Cardinality(creg \cup {id}))
                  /\ UNCHANGED <<cfg, phase, calls, byId, hi, gaps, cw, nSR, sw, nCR, cin, sin, preq, hnds, hOf,
                                 flt, sreg, base, pend, live, cregN, parked>>
-MuxUnreg(id, n) == /\ creg' = creg \ {id} /\ n = Cardinality(creg \ {id})
+MuxUnreg(id, n) == /\ creg' = creg \ {id} /\ G("reg", n = Cardinality(creg \ {id}))
                    /\ UNCHANGED <<cfg, phase, calls, byId, hi, gaps, cw, nSR, sw, nCR, cin, sin, preq, hnds, hOf,
                                   flt, sreg, base, pend, live, cregN, parked>>
 MuxFail(n) == /\ creg' = IF n = 0 THEN {} ELSE creg
-              /\ n \in {0, Cardinality(creg)}
+              /\ G("reg", n \in {0, Cardinality(creg)})
               /\ UNCHANGED <<cfg, phase, calls, byId, hi, gaps, cw, nSR, sw, nCR, cin, sin, preq, hnds, hOf,
                              flt, sreg, base, pend, live, cregN, parked>>
-SrvReg(id, n) == /\ sreg' = sreg \cup {id} /\ n = Cardinality(sreg \cup {id})
+SrvReg(id, n) == /\ sreg' = sreg \cup {id} /\ G("reg", n = Cardinality(sreg \cup {id}))
                  /\ UNCHANGED <<cfg, phase, calls, byId, hi, gaps, cw, nSR, sw, nCR, cin, sin, preq, hnds, hOf,
                                 flt, creg, base, pend, live, cregN, parked>>
 SrvUnreg(id, n) ==
-  /\ sreg' = sreg \ {id} /\ n = Cardinality(sreg \ {id})
+  /\ sreg' = sreg \ {id} /\ G("reg", n = Cardinality(sreg \ {id}))
   /\ sin' = IF id \in DOMAIN sin /\ sin[id].st \in {"live", "closing"}
               THEN [sin EXCEPT ![id].st = "dead"] ELSE sin
   /\ UNCHANGED <<cfg, phase, calls, byId, hi, gaps, cw, nSR, sw, nCR, cin, preq, hnds, hOf,
@@ -635,11 +648,11 @@ PendLegit(p) ==
 LiveLegit(v) ==
   LET h == v.h IN
   /\ h \in DOMAIN hnds
-  /\ v.res = "live" => ~HCause(h)                                   \* C07 / C10: cancelled with its cause
-  /\ v.in = "recv" => /\ v.res = "live"                             \* blocked calls unblock on the context
-                      /\ hnds[h].nrecv = Len(Sin(hnds[h].id).items) \* and on data
-  /\ v.in = "send" => Stuck
-  /\ v.in = "ctxwait" => v.res = "live"
+  /\ G("ctx", v.res = "live" => ~HCause(h))                         \* C07 / C10: cancelled with its cause
+  /\ G("pend", v.in = "recv" => /\ v.res = "live"                   \* blocked calls unblock on the context
+                                /\ hnds[h].nrecv = Len(Sin(hnds[h].id).items)) \* and on data
+  /\ G("pend", v.in = "send" => Stuck)
+  /\ G("pend", v.in = "ctxwait" => v.res = "live")
 
 NLiveUnary == Cardinality({v \in live : v.kind = "unary"})
 Idle == /\ \A c \in DOMAIN calls : ClientFinished(c)
@@ -647,26 +660,26 @@ Idle == /\ \A c \in DOMAIN calls : ClientFinished(c)
         /\ preq = <<>>
 
 Quiesce(ngor) ==
-  /\ \A p \in pend : p.c \in DOMAIN calls /\ PendLegit(p)
+  /\ \A p \in pend : p.c \in DOMAIN calls /\ G("pend", PendLegit(p))
   /\ \A v \in live : LiveLegit(v)
   \* every well-formed request delivered to a live server started its handler (C01 "never none")
-  /\ preq # <<>> => SrvDown \/ Stuck \/ NLiveUnary >= 8
+  /\ G("robust", preq # <<>> => SrvDown \/ Stuck \/ NLiveUnary >= 8)
   \* every returned handler has its response / close on the wire (C06)
-  /\ \A h \in DOMAIN hnds : hnds[h].ret /\ ~hnds[h].trW => SrvDown \/ Stuck \/ HCause(h)
+  /\ G("wire", \A h \in DOMAIN hnds : hnds[h].ret /\ ~hnds[h].trW => SrvDown \/ Stuck \/ HCause(h))
   \* bodies for unknown streams were answered with a reset (C12)
-  /\ \A id \in DOMAIN sin : sin[id].must > 0 => SrvDown \/ Stuck
+  /\ G("robust", \A id \in DOMAIN sin : sin[id].must > 0 => SrvDown \/ Stuck)
   \* a cancelled stream has sent its reset (C07)
-  /\ \A c \in DOMAIN calls :
+  /\ G("ctx", \A c \in DOMAIN calls :
         (calls[c].kind # "unary" /\ calls[c].opened = "ok" /\ CtxDone(c) /\ phase = "run"
-         /\ Cin(calls[c].id).close = "" /\ ~Cin(calls[c].id).mayRst /\ ~CliDown /\ ~Stuck) => calls[c].rstW
+         /\ Cin(calls[c].id).close = "" /\ ~Cin(calls[c].id).mayRst /\ ~CliDown /\ ~Stuck) => calls[c].rstW)
   \* Serve has returned if its connection ended and no scripted handler holds it (C10)
-  /\ (flt \cap {"sread", "swfail", "stop"} # {} /\ ~Stuck
-        /\ \A v \in live : v.kind = "unary" \/ v.in \notin {"idle", "sleep"}) => "serveret" \in flt
+  /\ G("serve", (flt \cap {"sread", "swfail", "stop"} # {} /\ ~Stuck
+        /\ \A v \in live : v.kind = "unary" \/ v.in \notin {"idle", "sleep"}) => "serveret" \in flt)
   \* registries (C14)
-  /\ cregN >= 0 => cregN = Cardinality(creg)
-  /\ ~Stuck => \A c \in DOMAIN calls : ClientFinished(c) /\ calls[c].id # "" => calls[c].id \notin creg
-  /\ ~Stuck => \A h \in DOMAIN hnds : hnds[h].ret /\ hnds[h].kind # "unary" => hnds[h].id \notin sreg
-  /\ (Idle /\ ~Stuck) => creg = {} /\ sreg = {} /\ (cfg.ncli = 1 => ngor <= base)
+  /\ G("reg", cregN >= 0 => cregN = Cardinality(creg))
+  /\ G("reg", ~Stuck => \A c \in DOMAIN calls : ClientFinished(c) /\ calls[c].id # "" => calls[c].id \notin creg)
+  /\ G("reg", ~Stuck => \A h \in DOMAIN hnds : hnds[h].ret /\ hnds[h].kind # "unary" => hnds[h].id \notin sreg)
+  /\ G("reg", (Idle /\ ~Stuck) => creg = {} /\ sreg = {} /\ (cfg.ncli = 1 => ngor <= base))
   \* after a quiescent point a finished stream is definitely unregistered
   /\ sin' = [id \in DOMAIN sin |-> IF sin[id].st = "closing" /\ ~Stuck THEN [sin[id] EXCEPT !.st = "dead"] ELSE sin[id]]
   /\ pend' = {} /\ live' = {} /\ cregN' = -1
